@@ -28,6 +28,8 @@ pub(crate) struct Parser<'cmd> {
     /// Counter indicating the number of items to skip
     /// when revisiting the group of flags which includes the flag subcommand.
     flag_subcmd_skip: usize,
+    /// Number of short flags of the current group consumed up to and including the flag subcommand.
+    flag_subcmd_consumed: usize,
 }
 
 // Initializing Methods
@@ -38,6 +40,7 @@ impl<'cmd> Parser<'cmd> {
             cur_idx: Cell::new(0),
             flag_subcmd_at: None,
             flag_subcmd_skip: 0,
+            flag_subcmd_consumed: 0,
         }
     }
 }
@@ -238,9 +241,11 @@ impl<'cmd> Parser<'cmd> {
                                 .map(|at| {
                                     raw_args
                                         .seek(&mut args_cursor, clap_lex::SeekFrom::Current(-1));
-                                    // Since we are now saving the current state, the number of flags to skip during state recovery should
-                                    // be the current index (`cur_idx`) minus ONE UNIT TO THE LEFT of the starting position.
-                                    self.flag_subcmd_skip = self.cur_idx.get() - at + 1;
+                                    // Since we are now saving the current state, the number of flags to skip during state recovery
+                                    // is the number of flags of this group already consumed, the flag subcommand included
+                                    // (it need not be the first flag of the group).
+                                    let _ = at;
+                                    self.flag_subcmd_skip = self.flag_subcmd_consumed;
                                 })
                                 .is_some();
 
@@ -736,6 +741,7 @@ impl<'cmd> Parser<'cmd> {
                     p.cur_idx.set(self.cur_idx.get());
                     p.flag_subcmd_at = self.flag_subcmd_at;
                     p.flag_subcmd_skip = self.flag_subcmd_skip;
+                    p.flag_subcmd_consumed = self.flag_subcmd_consumed;
                 }
                 if let Err(error) = p.get_matches_with(&mut sc_matcher, raw_args, args_cursor) {
                     if partial_parsing_enabled {
@@ -917,6 +923,7 @@ impl<'cmd> Parser<'cmd> {
 
         let skip = self.flag_subcmd_skip;
         self.flag_subcmd_skip = 0;
+        let mut consumed = skip;
         let res = short_arg.advance_by(skip);
         debug_assert_eq!(
             res,
@@ -932,6 +939,7 @@ impl<'cmd> Parser<'cmd> {
                     });
                 }
             };
+            consumed += 1;
             debug!("Parser::parse_short_arg:iter:{c}");
 
             // Check for matching short options, and return the name if there is no trailing
@@ -994,6 +1002,7 @@ impl<'cmd> Parser<'cmd> {
                 // (ie. `cur_idx`), and should be registered.
                 let cur_idx = self.cur_idx.get();
                 self.flag_subcmd_at.get_or_insert(cur_idx);
+                self.flag_subcmd_consumed = consumed;
                 let done_short_args = short_arg.is_empty();
                 if done_short_args {
                     self.flag_subcmd_at = None;
